@@ -90,6 +90,13 @@ class Session:
         self.p_kill = p_kill
         self.user_kill = user_kill
         self.transit = transit
+        # decided up front so that peers can gate their trailing control frames / EOF on "the planned idle kill has happened"
+        self.transit_planned = r.random() < transit
+        self.transit_after = r.choice([r.randint(1, 40), r.randint(1, 40), 10**6])  # 10**6: when the run is quiescent (layer idle)
+        self.transit_pending = self.transit_planned
+        self.transit_force = False
+        self.start_kill = {}  # hook name -> probability of an addon killing the flow in that (non-message) hook
+        self.pre_teardown = None
         self.records = []
         self.holds = []
         self.kills = []
@@ -110,6 +117,10 @@ class Session:
         if f not in self.flows:
             self.flows.append(f)
         rec = self.describe(drv, hook, f)
+        if rec is None and hook.name in self.start_kill and f.killable and not is_killed(f) and self.r.random() < self.start_kill[hook.name]:
+            f.kill()
+            self.acts.add((hook.name, "kill"))
+            self.note_kill(drv, f, hook.name, "addon", None)
         if rec is not None:
             rec.update(step=drv.step_no, hook=hook.name, cmd=hook, flow=f, decision="pass", user=None, final=None, out_idx=len(drv.out_log), hook_idx=len(drv.hooks))
             self.records.append(rec)
@@ -156,6 +167,10 @@ class Session:
         self.holds.append(h)
         drv.injected.append((f"user:{len(self.holds)}", lambda d, h=h: self.user(d, h), lambda d, h=h: self.user_ready(d, h)))
         return "hold"
+
+    def after_kill_or_unplanned(self, drv):
+        """Gate for trailing peer activity: open once some flow was killed, or if no idle kill is (still) planned."""
+        return bool(self.kills) or not self.transit_pending
 
     def note_kill(self, drv, f, where, how, rec):
         extra = self.kill_state(drv, f, where) if self.kill_state else None
@@ -215,18 +230,19 @@ class Session:
         return None
 
     def add_transit_kill(self, drv):
-        if self.r.random() >= self.transit:
+        if not self.transit_planned:
             return
-        after = self.r.randint(1, 25)
+        after = self.transit_after
 
         def gate(d):
-            return d.step_no >= after and any(f.killable and not f.intercepted for f in self.flows) and (self.transit_gate is None or self.transit_gate(d))
+            return (d.step_no >= after or self.transit_force) and any(f.killable and not f.intercepted for f in self.flows) and (self.transit_gate is None or self.transit_gate(d))
 
         def act(d):
             cands = [f for f in self.flows if f.killable and not f.intercepted]
             f = self.r.choice(cands)
             f.kill()
-            self.acts.add(("transit", "kill"))
+            self.transit_pending = False
+            self.acts.add(("transit", "kill-idle" if self.transit_force else "kill"))
             self.note_kill(d, f, "transit", "user", None)
             return None
 
@@ -269,6 +285,9 @@ class Session:
                 d.run()
                 held = [h for h in self.holds if h["status"] == "held"]
                 if not held:
+                    if phase == 0 and self.transit_pending and not self.transit_force:
+                        self.transit_force = True  # quiescent: the planned kill hits an idle layer, then the gated tails follow
+                        continue
                     break
                 if quiescent is not None and phase == 0:
                     quiescent(d, held)
@@ -276,11 +295,36 @@ class Session:
                     h["forced"] = True
             if phase == 0:
                 d.injected[:] = [it for it in d.injected if it[0] != "transit-kill"]
+                self.transit_pending = False
+                self.pre_teardown = {"log": len(d.log), "states": {id(c): c.state for c in [d.client] + list(d.servers)}}
                 d.teardown()
         for h in self.holds:
             if not h["task"].done():
                 h["task"].cancel()
         pump(self.loop, 1)
+
+    def events_after_kill(self, d, k, conns=None):
+        """Connection events the layer got after the kill and before the harness tore the client down."""
+        end = self.pre_teardown["log"] if self.pre_teardown else len(d.log)
+        return [e[2] for e in d.log[:end] if e[0] == "ev" and e[1] > k["step"] and (e[2].startswith("DataReceived") or e[2].startswith("ConnectionClosed"))]
+
+    def check_torn_down(self, d, k, conns, end_hooks=()):
+        """Once the layer saw any further connection event after the kill, it has closed both sides itself (not left them to
+        the peers / the harness)."""
+        from mitmproxy.connection import ConnectionState
+
+        if self.pre_teardown is None or not self.events_after_kill(d, k):
+            return
+        if any(e[0] == "cmd" and e[1] < k["step"] and e[2] in [f"Hook({n})" for n in end_hooks] for e in d.log):
+            return  # the flow was already over when it was killed
+        self.ctx.count("kill.torn_down")
+        up = [type(c).__name__ for c in conns if c is not None and self.pre_teardown["states"].get(id(c), ConnectionState.CLOSED) is not ConnectionState.CLOSED]
+        if up:
+            self.violate(
+                "connections-still-up-after-kill",
+                {"killed_at": k["hook"], "how": k["how"], "still_open": up, "events_after_kill": self.events_after_kill(d, k)[:8], "state": k["extra"]},
+                classify(self.proto, "kill.torn_down", k),
+            )
 
     # -- generic kill clauses ------------------------------------------------------------------------------
     def check_kill_error(self, d, k, error_hooks, excused_by=(), ended_before=()):
@@ -927,6 +971,12 @@ def ws_data(stream: bytes):
     return msgs, (nd, nb), ctrl
 
 
+def ws_frames(stream: bytes):
+    """All complete WebSocket frames [(fin, opcode, masked, payload)] after the HTTP head."""
+    i = stream.find(b"\r\n\r\n")
+    return wire.ws_decode(stream[i + 4 :])[0] if i >= 0 else []
+
+
 class WsOrigin(sansio.Peer):
     def __init__(self, frames, r):
         super().__init__()
@@ -938,10 +988,11 @@ class WsOrigin(sansio.Peer):
             self.upgraded = True
             self.send(b"HTTP/1.1 101 Switching Protocols\r\nUpgrade: websocket\r\nConnection: Upgrade\r\nSec-WebSocket-Accept: s3pPLMBiTxaQ9kYGzzhZRbK+xOo=\r\n\r\n")
             for fr, need in self.frames:
+                gate = need if callable(need) else (lambda d, need=need: ws_data(bytes(self.received))[1][0] >= need)
                 if fr is sansio.EOF:
-                    self.close(lambda d, need=need: ws_data(bytes(self.received))[1][0] >= need)
+                    self.close(gate)
                 else:
-                    self.send(fr, (lambda d, need=need: ws_data(bytes(self.received))[1][0] >= need))
+                    self.send(fr, gate)
 
 
 def ws_frames_for(r, msgs, masked):
@@ -955,9 +1006,14 @@ def ws_frames_for(r, msgs, masked):
         for j, part in enumerate(parts):
             mask = bytes(r.getrandbits(8) for _ in range(4)) if masked else None
             out.append(wire.ws_frame(op if j == 0 else wire.OP_CONT, part, fin=(j == len(parts) - 1), mask=mask))
-        if r.random() < 0.15:
-            out.append(wire.ws_frame(wire.OP_PING, b"p" + tag[:4], mask=bytes(r.getrandbits(8) for _ in range(4)) if masked else None))
+        if r.random() < 0.3:
+            out.append(ws_control(r, tag, masked))
     return out
+
+
+def ws_control(r, tag, masked, kinds=(wire.OP_PING, wire.OP_PING, wire.OP_PONG)):
+    """A ping or an unsolicited pong whose payload carries a tag (so a relayed copy is recognisable)."""
+    return wire.ws_frame(r.choice(kinds), b"K:" + tag, mask=bytes(r.getrandbits(8) for _ in range(4)) if masked else None)
 
 
 def run_ws_case(ctx, opts, loop, proto):
@@ -986,18 +1042,33 @@ def run_ws_case(ctx, opts, loop, proto):
     def edit(rec):
         rec["msg"].content = b"<" + rec["tag"] + b":EDITED" + bytes(r.choice(b"XYZ") for _ in range(r.choice([0, 5, 9, 5000]))) + b">"
 
-    S = Session(ctx, r, loop, "ws", describe, edit, transit=0.15)
-    S.transit_gate = lambda d: any(x["hook"] == "websocket_message" for x in S.records)
+    S = Session(ctx, r, loop, "ws", describe, edit, transit=0.3)
+    # the idle kill may come any time once the WebSocket layer is up: before the first message, between messages, after the last
+    S.transit_gate = lambda d: any(h[1] == "websocket_start" for h in d.hooks)
+    S.start_kill = {"websocket_start": 0.06}
 
     def kill_state(drv, f, where):
         srv = f.server_conn
-        return {"ws_open": f.websocket is not None and f.websocket.timestamp_end is None, "data_to_server": ws_data(bytes(drv.out[srv]))[1] if srv in drv.out else (0, 0), "data_to_client": ws_data(bytes(drv.out[drv.client]))[1]}
+        return {"ws_open": f.websocket is not None and f.websocket.timestamp_end is None, "data_to_server": ws_data(bytes(drv.out[srv]))[1] if srv in drv.out else (0, 0), "data_to_client": ws_data(bytes(drv.out[drv.client]))[1],
+                "frames_to_server": len(ws_frames(bytes(drv.out[srv]))) if srv in drv.out else 0, "frames_to_client": len(ws_frames(bytes(drv.out[drv.client])))}
 
     S.kill_state = kill_state
     sframes = [(fr, r.choice([0, 0, 1, 2])) for fr in ws_frames_for(r, sm, False)]
-    end = r.choice(["none", "none", "client-close", "server-close", "client-eof"])
+    # tails: what the peers do once the planned idle kill has happened (or right away if none is planned): control frames
+    # with recognisable payloads, then possibly a close with an application code + reason, or a plain disconnect
+    tail_gate = S.after_kill_or_unplanned
+    ctail = [ws_control(r, b"ct%d-%06x" % (j, r.getrandbits(24)), True) for j in range(r.choice([0, 0, 1, 2]))]
+    stail = [ws_control(r, b"st%d-%06x" % (j, r.getrandbits(24)), False) for j in range(r.choice([0, 0, 1, 2]))]
+    end = r.choice(["none", "none", "client-close", "server-close", "client-eof", "server-eof"])
+    close_code = r.choice([1000, 1001, 4000 + r.randrange(1000)])
+    close_payload = close_code.to_bytes(2, "big") + b"bye-%06x" % r.getrandbits(24)
+    for fr in stail:
+        sframes.append((fr, tail_gate))
     if end == "server-close":
-        sframes.append((wire.ws_frame(wire.OP_CLOSE, b"\x03\xe8bye"), len(cm)))
+        sframes.append((wire.ws_frame(wire.OP_CLOSE, close_payload), lambda dd: tail_gate(dd) and ws_data(bytes(origin.received))[1][0] >= r_need))
+    elif end == "server-eof":
+        sframes.append((sansio.EOF, tail_gate))
+    r_need = r.choice([0, len(cm)])
     origin = WsOrigin(sframes, r)
     d = sansio.Driver(
         h1case.top_factory("regular"), client=client, options=opts, rng=r, addons=[h1case.ForceHttp(), ctx.c11_intercept], policy=S.policy,
@@ -1006,11 +1077,14 @@ def run_ws_case(ctx, opts, loop, proto):
     up = lambda dd: b"\r\n\r\n" in dd.out[client]
     segs = list(peers.cut(handshake, r, r.choice(["whole", "random"])))
     cstream = b"".join(ws_frames_for(r, cm, True))
-    if end == "client-close":
-        cstream += wire.ws_frame(wire.OP_CLOSE, b"\x03\xe8", mask=b"\x01\x02\x03\x04")
     segs += [(sg, up) for sg in peers.cut(cstream, r, r.choice(["whole", "random", "random"]))]
+    up_tail = lambda dd: up(dd) and tail_gate(dd)
+    ctail_stream = b"".join(ctail)
+    if end == "client-close":
+        ctail_stream += wire.ws_frame(wire.OP_CLOSE, close_payload, mask=b"\x01\x02\x03\x04")
+    segs += [(sg, up_tail) for sg in peers.cut(ctail_stream, r, r.choice(["whole", "whole", "random"]))]
     if end == "client-eof":
-        segs.append((sansio.EOF, up))
+        segs.append((sansio.EOF, up_tail))
     d.attach_client_peer(sansio.ScriptPeer(segs))
     S.drive(d)
 
@@ -1042,9 +1116,27 @@ def run_ws_case(ctx, opts, loop, proto):
             S.violate("forwarded-after-kill", {**witness, "killed_at": k["hook"], "how": k["how"], "data_frames_at_kill": st, "data_frames_at_end": now}, classify("ws", "kill.nothing", k))
         if k["hook"] in HTTP_HOOKS:  # killed during the HTTP handshake: HTTP rules
             S.check_kill_error(d, k, ("error",), excused_by=("response",))
-        else:
-            S.check_kill_error(d, k, ("websocket_end", "error"))
-    return S, d, (end,), witness
+            continue
+        over = any(e[0] == "cmd" and e[1] < k["step"] and e[2] == "Hook(websocket_end)" for e in d.log)  # the close handshake had already run
+        if st is not None and st["ws_open"] and not over:
+            # control frames count, too: after the kill no ping/pong reaches either peer and no peer's close (code + reason) is
+            # relayed; only a close of the proxy's own making is an abort signal
+            names = {wire.OP_PING: "ping", wire.OP_PONG: "pong", wire.OP_CLOSE: "close", wire.OP_TEXT: "text", wire.OP_BIN: "binary", wire.OP_CONT: "continuation"}
+            relayed = []
+            for side in ("server", "client"):
+                for fin, op, masked, payload in ws_frames(outs[side])[st["frames_to_" + side] :]:
+                    if op != wire.OP_CLOSE or payload == close_payload:
+                        relayed.append((side, names.get(op, op), payload[:40]))
+            ctx.count("kill.nothing")
+            if relayed:
+                S.violate("control-frames-relayed-after-kill", {**witness, "killed_at": k["hook"], "how": k["how"], "frames_sent_after_kill": relayed[:8], "events_after_kill": S.events_after_kill(d, k)[:8]}, classify("ws", "kill.control", k))
+            f = k["flow"]
+            if S.events_after_kill(d, k) and f.websocket is not None and f.websocket.close_code == close_code and end.endswith("-close"):
+                S.violate("killed-flow-ended-with-the-peers-close-code", {**witness, "killed_at": k["hook"], "how": k["how"], "close_code": f.websocket.close_code, "close_reason": f.websocket.close_reason, "peer_close": close_payload}, classify("ws", "kill.control", k))
+            S.check_torn_down(d, k, [client, server], end_hooks=("websocket_end",))
+        S.check_kill_error(d, k, ("websocket_end", "error"))
+    feats = (end, len(ctail), len(stail))
+    return S, d, feats, witness
 
 
 # --------------------------------------------------------------------------------------------------------------
